@@ -43,7 +43,7 @@ func (H) End(c *core.RunCtx, end string) (string, string) {
 
 // Expand: complete enumeration of the crash points of one history (fan-out).
 func (H) Expand(plan *core.Plan, first *core.Result) []*core.Plan {
-	if plan.Prop != "C01" || plan.C("crash_at", 0) != 0 {
+	if plan.Prop != "C01" || plan.C("crash_at", 0) != 0 || plan.C("ioerr_pm", 0) != 0 {
 		return nil
 	}
 	n := first.Probes["fsops"]
@@ -90,6 +90,15 @@ func genC01(rng *rand.Rand, tier string) *core.Plan {
 	}
 	fams := 1 + rng.Intn(2)
 	par := rng.Intn(3) == 0
+	ioerr := !par && rng.Intn(5) == 0
+	if ioerr {
+		// a fifth of the sequential histories: no process death, instead up to 1-3 file-system operations inside
+		// flushes and compactions fail with an I/O error (disk full); judged apart from the crash histories
+		p.Cfg["ioerr_pm"] = []int{20, 60, 150}[rng.Intn(3)]
+		p.Cfg["ioerr_max"] = 1 + rng.Intn(3)
+		delete(p.Cfg, "crash2")
+		delete(p.Cfg, "crash3")
+	}
 	if par {
 		// flushers of several families run at the same time: the schedule matters
 		fams = 3 + rng.Intn(2)
@@ -172,6 +181,13 @@ type c01 struct {
 	refd     map[string]bool // family/fileNumber referenced by the recovered/current versions
 	nextTok  uint64
 	rollup   bool
+	// I/O error histories: alts[f] = further contents family f may show (a flush whose commit reported an
+	// injected I/O error took effect or not; decided for good only by a reopen)
+	alts     map[int][]*famModel
+	ioP      float64
+	ioMax    int
+	ioArmed  bool
+	injected int
 }
 
 func famName(i int) string { return fmt.Sprintf("%d", 1+i) } // numeric names: the rollup code parses them as family time
@@ -197,6 +213,21 @@ func (h *c01) pre(op, path string) {
 		sim.Event("crash before fs op #%d %s %s", h.fsops, op, strings.TrimPrefix(path, h.base))
 		sim.Kill(h.inc)
 	}
+}
+
+// fail decides whether a file-system operation of the store fails with an I/O error instead of running.
+func (h *c01) fail(op, path string) error {
+	sim := h.c.Sim
+	if !h.ioArmed || h.injected >= h.ioMax || h.crashed || sim.CurInc() != h.inc {
+		return nil
+	}
+	if !sim.Tape.Chance(h.ioP) {
+		return nil
+	}
+	h.injected++
+	sim.Fault("io-error@" + op)
+	sim.Event("injected I/O error at %s %s", op, strings.TrimPrefix(path, h.base))
+	return fmt.Errorf("%s %s: injected: no space left on device", op, filepath.Base(path))
 }
 
 func (h *c01) storeOption(src bool) kv.StoreOption {
@@ -311,12 +342,25 @@ func (h *c01) verify(when string, afterCrash bool) {
 		}
 		return true, ""
 	}
+	picked := map[int]*famModel{}
 	match := func(want map[int]*famModel) (bool, string) {
 		for i := 0; i < 4; i++ {
 			if !h.fams[i] {
 				continue
 			}
-			if ok, why := matchOne(i, want[i], got[i]); !ok {
+			ok, why := matchOne(i, want[i], got[i])
+			for _, a := range h.alts[i] {
+				if ok {
+					break
+				}
+				if ok2, _ := matchOne(i, a, got[i]); ok2 {
+					ok, picked[i] = true, a
+				}
+			}
+			if !ok {
+				if n := len(h.alts[i]); n > 0 {
+					why += fmt.Sprintf(" (or one of %d other contents allowed after a flush that reported an I/O error)", n)
+				}
 				return false, why
 			}
 		}
@@ -350,6 +394,14 @@ func (h *c01) verify(when string, afterCrash bool) {
 	}
 	h.pending = nil
 	h.pendFam = -1
+	if okOld && strings.Contains(when, "reopen") {
+		// what a flush with a failed commit left behind is decided now
+		for i, a := range picked {
+			h.model[i] = a
+			c.Sim.Probe("failed-flush-took-effect")
+		}
+		h.alts = map[int][]*famModel{}
+	}
 	if !okOld {
 		sig := "C01/content-mismatch"
 		if afterCrash {
@@ -403,10 +455,27 @@ func runC01(c *core.RunCtx) {
 	kv.VerifSetFS(h.pre)
 	version.VerifSetFS(h.pre)
 	table.VerifSetFS(h.pre)
+	h.alts = map[int][]*famModel{}
+	if pm := c.Plan.C("ioerr_pm", 0); pm > 0 {
+		h.ioP, h.ioMax = float64(pm)/1000, c.Plan.C("ioerr_max", 1)
+		// table files and file removal only. Not the manifest: what a manifest record that was written but whose
+		// fsync failed means is not something the statement decides (observed: lindb reports the commit as
+		// failed, later removes the table as garbage, and the next open finds the record - see DESIGN 10.2)
+		kv.VerifSetFSFail(func(op, path string) error {
+			if op != "remove" {
+				return nil
+			}
+			return h.fail(op, path)
+		})
+		table.VerifSetFSFail(h.fail)
+	}
 	defer func() {
 		kv.VerifSetFS(nil)
 		version.VerifSetFS(nil)
 		table.VerifSetFS(nil)
+		kv.VerifSetFSFail(nil)
+		version.VerifSetFSFail(nil)
+		table.VerifSetFSFail(nil)
 	}()
 
 	next := 0 // next op to run
@@ -482,6 +551,39 @@ func (h *c01) runOp(op core.Op) {
 		}
 		pm := h.cloneModel()
 		h.pending = pm
+		if h.ioP > 0 {
+			var extra []*famModel
+			for _, a := range h.alts[fam] {
+				extra = append(extra, a.clone())
+			}
+			inj0 := h.injected
+			h.ioArmed = true
+			err := h.doFlushErr(fam, op, pm, extra)
+			h.ioArmed = false
+			switch {
+			case c.Violated():
+				return
+			case err == nil:
+				h.model = pm
+				h.alts[fam] = extra
+			case h.injected > inj0:
+				// the commit reported the failure: the flush took effect entirely or not at all
+				sim.Probe("flush-failed-by-io-error")
+				sim.Event("flush failed: %v", err)
+				if !strings.HasPrefix(err.Error(), "add: ") {
+					h.alts[fam] = append(append(h.alts[fam], pm[fam]), extra...)
+				} // else: abandoned before its commit, nothing of it may show
+				if len(h.alts[fam]) > 16 {
+					h.alts[fam] = h.alts[fam][:16]
+				}
+			default:
+				c.Violate("C01/commit-failed", "flush returned %v although no fault was injected into it", err)
+				return
+			}
+			h.pending = nil
+			h.verify("after flush", false)
+			return
+		}
 		if !h.doFlush(fam, op, pm) {
 			return
 		}
@@ -528,20 +630,26 @@ func (h *c01) runOp(op core.Op) {
 		}
 		f := h.store.GetFamily(famName(fam))
 		h.pending = h.cloneModel() // content-neutral
+		h.ioArmed = h.ioP > 0
 		f.Compact()
 		sim.Await(func() bool { return !kv.VerifFamilyBusy(f) })
+		h.ioArmed = false
 		h.pending = nil
 		h.verify("after compaction", false)
 	case "tick":
 		h.pending = h.cloneModel()
+		h.ioArmed = h.ioP > 0
 		kv.VerifStoreCompact(h.store)
 		h.awaitIdle()
+		h.ioArmed = false
 		h.pending = nil
 		h.verify("after compaction tick", false)
 	case "rollup":
 		h.pending = h.cloneModel()
+		h.ioArmed = h.ioP > 0
 		h.store.ForceRollup()
 		h.awaitIdle()
+		h.ioArmed = false
 		h.pending = nil
 		h.verify("after rollup", false)
 	case "reopen":
@@ -565,7 +673,20 @@ func (h *c01) runOp(op core.Op) {
 
 // doFlush writes one generated flush into the family and commits it; pm receives its effect.
 func (h *c01) doFlush(fam int, op core.Op, pm map[int]*famModel) bool {
-	c := h.c
+	err := h.doFlushErr(fam, op, pm, nil)
+	if err != nil && !h.c.Violated() {
+		if strings.HasPrefix(err.Error(), "add: ") {
+			h.c.Anomaly("flush %v", err)
+		} else {
+			h.c.Violate("C01/commit-failed", "flush commit returned %v without any injected fault", err)
+		}
+	}
+	return err == nil
+}
+
+// doFlushErr writes one generated flush and returns the error of Add / Commit; the flush's effect is applied to
+// pm[fam] and to every model in extra.
+func (h *c01) doFlushErr(fam int, op core.Op, pm map[int]*famModel, extra []*famModel) error {
 	f := h.store.GetFamily(famName(fam))
 	rng := rand.New(rand.NewSource(int64(len(op.S))*7919 + atoiSafe(op.S)))
 	keys := append([]uint32(nil), keyUniverse...)
@@ -589,15 +710,21 @@ func (h *c01) doFlush(fam int, op core.Op, pm map[int]*famModel) bool {
 			pad := int(op.C)
 			val := encodeValue(map[uint64]int{id: pad})
 			pm[fam].data.add(k, id, pad)
+			for _, e := range extra {
+				e.data.add(k, id, pad)
+			}
 			h.tgtUpper.add(k, id, pad)
 			if op.B&1 != 0 && i%2 == 1 {
 				var sw table.StreamWriter
 				if sw, err = fl.StreamWriter(); err == nil {
 					sw.Prepare(k)
 					half := len(val) / 2
-					_, _ = sw.Write(val[:half])
-					_, _ = sw.Write(val[half:])
-					err = sw.Commit()
+					if _, err = sw.Write(val[:half]); err == nil {
+						_, err = sw.Write(val[half:])
+					}
+					if err == nil {
+						err = sw.Commit()
+					}
 				}
 			} else {
 				err = fl.Add(k, val)
@@ -607,24 +734,25 @@ func (h *c01) doFlush(fam int, op core.Op, pm map[int]*famModel) bool {
 			}
 		}
 	}
-	if err != nil {
-		fl.Release()
-		c.Anomaly("flush add: %v", err)
-		return false
-	}
 	if op.B&2 != 0 || seqOnly {
+		// (the sequence is part of the flush's effect also when an Add already failed: all or nothing)
 		leader := int32(1 + op.A%2)
 		seq := int64(h.nextTok) + 100
-		fl.Sequence(leader, seq)
 		pm[fam].seqs[leader] = seq
+		for _, e := range extra {
+			e.seqs[leader] = seq
+		}
+		if err == nil {
+			fl.Sequence(leader, seq)
+		}
+	}
+	if err != nil {
+		fl.Release()
+		return fmt.Errorf("add: %w", err)
 	}
 	err = fl.Commit()
 	fl.Release()
-	if err != nil {
-		c.Violate("C01/commit-failed", "flush commit returned %v without any injected fault", err)
-		return false
-	}
-	return true
+	return err
 }
 
 func (h *c01) awaitIdle() {
